@@ -235,6 +235,12 @@ NUM = r'[-+]?\d\.\d+e[-+]\d+'
 ROW = re.compile(rf'^({NUM}) - ({NUM})\t({NUM})\t({NUM})((?:\t{NUM})?)\s*$')
 INTEG = re.compile(rf'^(number of batches used: \d+)\t({NUM})\t({NUM})\s*$')
 STEP = re.compile(r'^\s*(time|mu|phi) (min|max)\. = (' + NUM + r')\s*$')
+KEST = re.compile(rf'^ (KSTEP|KCOLL|KTRACK)(\s+)({NUM})\t({NUM})\s*$')
+KPAIR = re.compile(rf'^(\s*)(KSTEP|KCOLL|KTRACK) <-> (KSTEP|KCOLL|KTRACK)'
+                   rf'(\s+)({NUM})(\s+)({NUM})(\s+)({NUM}|Not converged)\s*$')
+KAUTO = re.compile(rf'^(\t number of batch used: \d+\t keff = )({NUM})'
+                   rf'(\t sigma = )({NUM})(\t sigma% = )({NUM})\s*$')
+KHEAD = re.compile(r'^\t  (MACRO KCOLL|KSTEP|KCOLL|KTRACK)\s+ESTIMATOR\s*$')
 
 
 def rewrite(text, rng):
@@ -271,6 +277,50 @@ def rewrite(text, rng):
                 order = ['time', 'mu', 'phi']
                 for inner in order[order.index(kind) + 1:]:
                     ctx['steps'].pop(inner, None)
+        mat = KHEAD.match(line)
+        if mat:
+            ctx['estimator'] = mat.group(1)
+        mat = KEST.match(line)
+        if mat:
+            score, sigma = abs(uniq.score(False)), uniq.sigma()
+            new = f' {mat.group(1)}{mat.group(2)}{fmt(score)}\t{fmt(sigma)}'
+            rows.append({'line': new, 'kind': 'keff', 'e': None,
+                         'score': score, 'sigma': sigma, 'abs_sigma': None,
+                         'estimator': mat.group(1), 'correlation': None,
+                         'response': dict(ctx['response']), 'zone': None,
+                         'steps': {}})
+            out.append(new)
+            continue
+        mat = KPAIR.match(line)
+        if mat:
+            score = abs(uniq.score(False))
+            conv = mat.group(9) != 'Not converged'
+            sigma = uniq.sigma() if conv else None
+            last = fmt(sigma) if conv else mat.group(9)
+            new = (f'{mat.group(1)}{mat.group(2)} <-> {mat.group(3)}'
+                   f'{mat.group(4)}{mat.group(5)}{mat.group(6)}{fmt(score)}'
+                   f'{mat.group(8)}{last}')
+            rows.append({'line': new, 'kind': 'keff', 'e': None,
+                         'score': score, 'sigma': sigma, 'abs_sigma': None,
+                         'estimator': f'{mat.group(2)}-{mat.group(3)}',
+                         'correlation': float(mat.group(5)),
+                         'response': dict(ctx['response']), 'zone': None,
+                         'steps': {}})
+            out.append(new)
+            continue
+        mat = KAUTO.match(line)
+        if mat:
+            score, pct = abs(uniq.score(False)), uniq.sigma()
+            sig = float(fmt(score * pct / 100.0))
+            new = (f'{mat.group(1)}{fmt(score)}{mat.group(3)}{fmt(sig)}'
+                   f'{mat.group(5)}{fmt(pct)}')
+            rows.append({'line': new, 'kind': 'keff', 'e': None,
+                         'score': score, 'sigma': pct, 'abs_sigma': sig,
+                         'estimator': ctx.get('estimator'),
+                         'correlation': None,
+                         'response': {}, 'zone': None, 'steps': {}})
+            out.append(new)
+            continue
         mat = ROW.match(line)
         if mat:
             score, sigma = uniq.score(False), uniq.sigma()
